@@ -229,6 +229,41 @@ root("spaceref",
      [q("S", "f", 0), q("S", "f2", 0), q("S", "g", 0)])
 
 
+# 11. ItemSpaces of a sub space deriving its cells from a base: edits of the base definitions
+root("inheritem",
+     {"spaces": {"Base": {"refs": {"r": 1}, "cells": {"foo": "lambda: tick() + r", "bar": L + "foo() + x"}},
+                 "Sub": {"bases": ["Base"], "formula": "lambda i: None"}}},
+     [q("Base", "foo"), q("Sub", "foo"), q("Sub[1]", "foo"), q("Sub[1]", "bar", 1), q("Sub[2]", "bar", 0)],
+     [set_formula("Base", "foo", "lambda: tick() + r + 100"), set_cached("Base", "foo", False),
+      set_cached("Base", "foo", True), set_ref("Base", "r", 2), del_ref("Base", "r"), set_ref("Sub", "r", 3),
+      del_ref("Sub", "r"), set_formula("Sub", "foo", "lambda: tick() + r + 200"), del_cells("Sub", "foo"),
+      set_input("Base", "foo", [], 50), set_input("Sub", "foo", [], 51), cl("clear_all", "Base", "foo"),
+      rename_cells("Base", "foo", "foo2"), del_cells("Base", "bar"), new_cells("Base", "baz", L + "x"),
+      remove_bases("Sub", "Base"), add_bases("Sub", "Base"), set_param("Sub", "lambda i, j=0: None"),
+      {"op": "clear_items", "sp": "Sub"}],
+     [q("Sub[1]", "foo"), q("Sub[1]", "bar", 1), q("Base", "foo")])
+
+
+def _add_clear_ops():
+    for r in ROOTS.values():
+        seen = set()
+        extra = []
+        for p in r["probes"]:
+            if "[" in p["sp"]:
+                continue
+            k = (p["sp"], p["c"], tuple(p.get("args", [])))
+            if k in seen:
+                continue
+            seen.add(k)
+            op = cl("clear_at", p["sp"], p["c"], *p.get("args", []))
+            if op not in r["edits"]:
+                extra.append(op)
+        r["edits"] = r["edits"] + extra
+
+
+_add_clear_ops()
+
+
 def root_names(tier):
     return list(ROOTS)
 
@@ -238,10 +273,12 @@ def root_names(tier):
 class World:
     """A fresh session holding model M built from a root spec."""
 
-    def __init__(self, rootname, name="M"):
+    def __init__(self, rootname, name="M", warm=False):
         self.root = ROOTS[rootname]
         reset_world()
         self.m, self.rm = O.build_from_spec(self.root["spec"], name)
+        if warm:        # start from a state in which every probe element already holds a value
+            self.probe_all()
 
     def apply(self, op, track_ref=True):
         ob = O.apply_impl(self.m, op)
